@@ -11,64 +11,77 @@ PERIODIC_ASSUMPTION = ("PeriodicDiskRevolve: (wd+rd) < C(ram+1+T, T)*uf with the
                        "period loop (T=3 quick, T=5 thorough); larger ratios are outside the claim")
 
 
+# per-class bounds of the whole-stream sweep: (n_max, options)
+SWEEP = {
+    "quick": {
+        "Multistage": (14, {}), "Mixed": (16, {}), "TwoLevel": (10, {"bmax": 3, "passes": 2}),
+        "SingleDiskCopy": (16, {"passes": 3}), "SingleDiskMove": (16, {}),
+        "HRevolve": (14, {"rmax": 2, "dmax": 2}), "Revolve": (16, {"rmax": 3}),
+        "DiskRevolve": (14, {"rmax": 3}), "PeriodicDiskRevolve": (14, {"rmax": 2, "unwind": 3}),
+    },
+    "thorough": {
+        "Multistage": (30, {}), "Mixed": (36, {}), "TwoLevel": (24, {"bmax": 4, "passes": 3}),
+        "SingleDiskCopy": (60, {"passes": 3}), "SingleDiskMove": (60, {}),
+        "HRevolve": (20, {"rmax": 2, "dmax": 2}), "Revolve": (40, {"rmax": 5}),
+        "DiskRevolve": (40, {"rmax": 3}), "PeriodicDiskRevolve": (40, {"rmax": 3, "unwind": 5}),
+    },
+}
+HREV_EXTRA = {"quick": [("/r1d3", range(7, 11), {"rmax": 1, "dmin": 3, "dmax": 3})], "thorough": [("/r3d3", range(2, 15), {"rmax": 3, "dmax": 3}),
+                                         ("/r1d4", range(2, 15), {"rmax": 1, "dmax": 4})]}
+
+
 def sweep_bounds(tier):
-    q = tier == "quick"
-    return {
-        "Multistage": {"n": [1, 9 if q else 18], "ram": ">=0 (symbolic, unbounded)",
-                       "disk": ">=0 (symbolic, unbounded)", "trajectory": "both"},
-        "Mixed": {"n": [1, 10 if q else 20], "s": ">=min(1,n-1) (symbolic, unbounded)",
-                  "storage": "RAM, DISK"},
-        "TwoLevel": {"n": [1, 8 if q else 16], "period": "1..n+1 (n+1 stands for every larger period)",
-                     "binomial_snapshots": [0, 3 if q else 4], "storage": "RAM, DISK",
-                     "trajectory": "both", "passes": 2 if q else 3},
-        "SingleMemory": {"n": "symbolic, 1..3*sys.maxsize", "passes": 3},
-        "None": {"n": "symbolic, 1..3*sys.maxsize"},
-        "SingleDiskCopy": {"n": [1, 12 if q else 40], "passes": 3},
-        "SingleDiskMove": {"n": [1, 12 if q else 40]},
-        "HRevolve": {"n": [1, 6 if q else 9], "ram": [1, 2], "disk": [0, 2],
-                     "costs": "uf, ub > 0, wd, rd >= 0 symbolic reals (4-dimensional)",
-                     "extra_slice": None if q else "n 10..12 on the slice ub=uf, rd=wd; ram 3, disk 3 for n<=8"},
-        "Revolve": {"n": [1, 12 if q else 28], "ram": [1, 3 if q else 4], "costs": "symbolic reals"},
-        "DiskRevolve": {"n": [1, 11 if q else 22], "ram": [1, 3 if q else 4], "costs": "symbolic reals"},
-        "PeriodicDiskRevolve": {"n": [1, 11 if q else 24], "ram": [1, 2 if q else 3],
-                                "costs": "symbolic reals under the unwinding assumption"},
-    }
+    B = SWEEP[tier]
+    out = {}
+    for cls, (nmax, o) in B.items():
+        d = {"n": [1, nmax]}
+        if cls == "Multistage":
+            d.update(ram=">=0 (symbolic, unbounded)", disk=">=0 (symbolic, unbounded)", trajectory="both")
+        elif cls == "Mixed":
+            d.update(s=">=min(1,n-1) (symbolic, unbounded)", storage="RAM, DISK")
+        elif cls == "TwoLevel":
+            d.update(period="1..n+1 (n+1 stands for every larger period)", binomial_snapshots=[0, o["bmax"]],
+                     storage="RAM, DISK", trajectory="both", passes=o["passes"])
+        elif cls in REVOLVE_FAMILY:
+            d.update(ram=[1, o["rmax"]], costs="uf, ub > 0, wd, rd >= 0: symbolic reals, whole cost space")
+            if cls == "HRevolve":
+                d.update(disk=[0, o["dmax"]])
+                d["extra_slices"] = ["%s n in %d..%d %r" % (t, r[0], r[-1], oo) for t, r, oo in HREV_EXTRA[tier]]
+            if cls == "PeriodicDiskRevolve":
+                d["unwinding"] = "(wd+rd) < C(ram+1+T,T)*uf, T=%d" % o["unwind"]
+        else:
+            d.update(passes=o.get("passes", 1))
+        out[cls] = d
+    out["SingleMemory"] = {"n": "symbolic, 1..3*sys.maxsize", "passes": 3}
+    out["None"] = {"n": "symbolic, 1..3*sys.maxsize"}
+    return out
 
 
 def sweep_jobs(tier, classes=None, passes=None):
     q = tier == "quick"
     jobs = []
+    B = SWEEP[tier]
 
     def add(cls, n, p, opts=None, w=1, deadline=None):
         if classes is not None and cls not in classes:
             return
-        jobs.append({"harness": "stream", "name": "stream/%s/n=%s%s" % (cls, n, opts.get("tag", "") if opts else ""),
-                     "params": {"cls": cls, "n": n, "passes": p, "opts": opts or {}},
-                     "weight": w, "deadline": deadline or (900 if q else 3000)})
-    for n in range(1, (9 if q else 18) + 1):
-        add("Multistage", n, 1, w=n * n)
-    for n in range(1, (10 if q else 20) + 1):
-        add("Mixed", n, 1, w=n * n)
-    for n in range(1, (8 if q else 16) + 1):
-        add("TwoLevel", n, passes or (2 if q else 3), {"bmax": 3 if q else 4}, w=n * n * 4)
-    add("SingleMemory", None, 3)
-    add("None", None, 1)
-    for n in range(1, (12 if q else 40) + 1):
-        add("SingleDiskCopy", n, 3)
-        add("SingleDiskMove", n, 1)
-    for n in range(1, (6 if q else 9) + 1):
-        add("HRevolve", n, 1, {"rmax": 2, "dmax": 2}, w=4 ** n)
-    if not q:
-        for n in range(2, 9):
-            add("HRevolve", n, 1, {"rmax": 3, "dmax": 3, "tag": "/r3d3", "only_big": True}, w=4 ** n)
-        for n in range(10, 13):
-            add("HRevolve", n, 1, {"rmax": 2, "dmax": 2, "costs": "sym2", "tag": "/sym2"}, w=3 ** n)
-    for n in range(1, (12 if q else 28) + 1):
-        add("Revolve", n, 1, {"rmax": 3 if q else 4}, w=n)
-    for n in range(1, (11 if q else 22) + 1):
-        add("DiskRevolve", n, 1, {"rmax": 3 if q else 4}, w=n * n * n)
-    for n in range(1, (11 if q else 24) + 1):
-        add("PeriodicDiskRevolve", n, 1, {"rmax": 2 if q else 3, "unwind": 3 if q else 5}, w=n * n)
+        opts = dict(opts or {})
+        jobs.append({"harness": "stream", "name": "stream/%s/n=%s%s" % (cls, n, opts.get("tag", "")),
+                     "params": {"cls": cls, "n": n, "passes": p, "opts": opts},
+                     "weight": w, "deadline": deadline or (900 if q else 3600)})
+    for cls, (nmax, o) in B.items():
+        for n in range(1, nmax + 1):
+            p = o.get("passes", 1)
+            if passes and cls in ("TwoLevel", "SingleDiskCopy"):
+                p = max(p, passes)
+            w = {"HRevolve": 1.35 ** n * 10, "DiskRevolve": n ** 3 / 50.0, "Multistage": n * n / 10.0,
+                 "TwoLevel": n * n / 10.0}.get(cls, n / 10.0)
+            add(cls, n, p, o, w=w)
+    add("SingleMemory", None, 3, w=1)
+    add("None", None, 1, w=1)
+    for tag, rng, o in HREV_EXTRA[tier]:
+        for n in rng:
+            add("HRevolve", n, 1, dict(o, tag=tag), w=1.4 ** n * 10)
     return jobs
 
 
@@ -351,6 +364,12 @@ def c15_jobs(tier):
     q = tier == "quick"
     jobs = [_job("hist", "target=%d/%s" % (i, SPECS[i]["cls"]), {"target": i, "H": 2 if q else 2, "tier": tier},
                  w=10, deadline=3000) for i in range(len(SPECS))]
+    from .hist import pair_box
+    for cls in ("Multistage", "Mixed", "TwoLevel") + REVOLVE_FAMILY:
+        nb = len(pair_box(cls, tier))
+        for first in range(nb):
+            jobs.append(_job("hist_pair", "%s/first=%d" % (cls, first), {"cls": cls, "tier": tier, "first": first},
+                             w=3, deadline=3000))
     for j in jobs:
         # no symbolic value flows into the code here (only solver-enumerated choice indices), so the
         # concrete twin run of a path would be the identical execution: skipped
@@ -362,7 +381,10 @@ PROPS["C15"] = {
     "fatal": ["C15."], "jobs": c15_jobs,
     "bounds": lambda tier: {"history_length": 2, "alphabet": "27 operation instances" if tier == "quick" else "72 operation instances",
                             "targets": 21, "observer_patterns": 3, "interleaved_partner": "none or one of 4 live schedules",
-                            "baseline": "streams computed in a fresh interpreter (subprocess)"},
+                            "baseline": "streams computed in a fresh interpreter (subprocess)",
+                            "same_family_pairs": "every ordered pair (first, target) of a parameter box per class (Multistage n<=8/12, "
+                                                 "Mixed n<=9/14, TwoLevel n<=7/10, Revolve family n<=9/13 with ram<=3, disk<=3/4, default costs); "
+                                                 "first is exhausted, advanced 4 actions, or only constructed"},
     "outside": ["histories longer than 2 operations", "parameters outside the instance list (chosen to collide on memo keys)",
                 "threads"],
     "trusted": ["z3 (enumeration of feasible choice vectors and certificate of exhaustion)"],
